@@ -422,6 +422,10 @@ func (txn MapTxn[K, V]) Commit() (m Map[K, V]) {
 		m.singleton = &kv
 	default:
 		m.tree = txn.txn.Commit()
+		// The transaction can be used again, so it must not be left in the
+		// reuse slot from which the next Tree.Txn() of the returned map (or of
+		// any map derived from it) would pick it up and share it with us.
+		m.tree.prevTxn.CompareAndSwap(txn.txn, nil)
 		m.hasTree = true
 	}
 	if m.singleton != nil {
